@@ -355,10 +355,6 @@ Section CertModel.
   Variable pubkey_ok : bytes -> bool.                  (* decode_ssh_public_key(blob) succeeds *)
   Variable keyfields_ok : bytes -> list bytes -> bool. (* key_handler.decode_ssh_public/make_public ok *)
   Variable addrs_ok : bytes -> bool.                   (* every name of the list is an ip_network *)
-  (* code variant: does _decode_options read the value of an unknown non-critical option?
-     false = the code as found (the value String is parsed as the next option name) *)
-  Variable consume_unknown : bool.
-
   (* decoder(data_packet); data_packet.check_end() *)
   Definition dec_optval (k : okind) (data : bytes) : option oval :=
     match k with
@@ -375,9 +371,13 @@ Section CertModel.
         end
     end.
 
-  (* _decode_options(options, decoders, critical) *)
-  Fixpoint dec_options (fuel : nat) (known : list (bytes * okind)) (critical : bool) (p : bytes)
-    : res (list (bytes * oval)) :=
+  (* _decode_options(options, decoders, critical).  [consume_unknown] = does the loop read the
+     data String of an unknown non-critical option ("else: packet.get_string()")?  The model of
+     record is [dec_options] (it does, /repo commit d13f6e7); [dec_options_old] is the code before
+     that repair (the data String was parsed as the next option name) and is kept only for the
+     refuted statement about it. *)
+  Fixpoint dec_options_gen (consume_unknown : bool) (fuel : nat) (known : list (bytes * okind))
+           (critical : bool) (p : bytes) : res (list (bytes * oval)) :=
     match p with
     | [] => ROk []
     | _ :: _ =>
@@ -395,7 +395,7 @@ Section CertModel.
                         match dec_optval k data with
                         | None => RErr
                         | Some v =>
-                            match dec_options f known critical r' with
+                            match dec_options_gen consume_unknown f known critical r' with
                             | ROk t => ROk ((name, v) :: t)
                             | RErr => RErr
                             | RFuel => RFuel
@@ -407,13 +407,16 @@ Section CertModel.
                     else if consume_unknown then
                       match get_string r with
                       | None => RErr
-                      | Some (_, r') => dec_options f known critical r'
+                      | Some (_, r') => dec_options_gen consume_unknown f known critical r'
                       end
-                    else dec_options f known critical r
+                    else dec_options_gen consume_unknown f known critical r
                 end
             end
         end
     end.
+
+  Definition dec_options := dec_options_gen true.
+  Definition dec_options_old := dec_options_gen false.
 
   Record cert_info := mkCI {
     ci_fields : cert_fields; ci_kalg : bytes; ci_keyid : list Z; ci_principals : list (list Z);
@@ -587,8 +590,10 @@ Section CertModel.
   Inductive sres := SAccept | SReject | SValueError | SFuel.
 
   (* validate_sshsig(msg, raw, principal, allowed_signers, is_hashed) at time now.
-     [want] is the certificate type passed to cert.validate (CERT_TYPE_ANY in the code as found). *)
-  Definition sshsig_validate (want : Z) (msg : bytes) (is_hashed : bool) (raw : bytes)
+     [want] is the certificate type passed to cert.validate: the model of record is
+     [sshsig_validate] below (CERT_TYPE_USER, /repo commit 0617eca); [sshsig_validate_old]
+     (CERT_TYPE_ANY, the code before that repair) is kept only for the refuted statement. *)
+  Definition sshsig_validate_gen (want : Z) (msg : bytes) (is_hashed : bool) (raw : bytes)
              (principal : list Z) (entries : list as_entry) (now : Z) : sres :=
     match sshsig_parse raw with
     | None => SReject
@@ -629,5 +634,8 @@ Section CertModel.
             end
         end
     end.
+
+  Definition sshsig_validate := sshsig_validate_gen CERT_TYPE_USER.
+  Definition sshsig_validate_old := sshsig_validate_gen CERT_TYPE_ANY.
 
 End CertModel.
